@@ -99,44 +99,18 @@ Print Assumptions run_outcome_cases.
 
 (* --- clause 3: in every case the display is stopped and the terminal is back in its initial modes:
        normal buffer, cursor visible, mouse / bracketed paste / focus reporting off, tty settings and
-       signal handlers as before.  All scripts, all fault plans, both kinds of screen, pop_ups,
-       handle_mouse, bracketed paste, focus reporting, tty or not, screen started by the application
-       or not.  Premise for raw_display: the SIGCONT handler was SIG_DFL (see the refutation below). --- *)
-Theorem always_restored :
-  forall c p rounds inputs T0, wf_config c -> initial_modes T0 -> (c_hook c = true -> t_cont T0 = 0) ->
+       ALL signal handlers (SIGWINCH, SIGTSTP, SIGCONT; whatever they were) as before.  All scripts,
+       all fault plans, both kinds of screen, pop_ups, handle_mouse, bracketed paste, focus
+       reporting, tty or not, screen started by the application or not.
+       (Before fix 05f5af7 Screen.signal_restore() reset SIGCONT to SIG_DFL and this statement was
+       refuted in the model; the former witness is kept as a regression case in corpus/C12/base.json
+       and as [ex_sigcont_kept] below.) --- *)
+Theorem always_restored_full :
+  forall c p rounds inputs T0, wf_config c -> initial_modes T0 ->
     tm (snd (session c p rounds inputs (init_st T0))) = T0 /\
     s_started (scr (snd (session c p rounds inputs (init_st T0)))) = false.
 Proof. exact always_restored_lemma. Qed.
-Print Assumptions always_restored.
-
-(* without the premise: everything but the SIGCONT handler is restored; SIGCONT ends as SIG_DFL *)
-Theorem restored_except_sigcont :
-  forall c p rounds inputs T0, wf_config c -> initial_modes T0 ->
-    tm (snd (session c p rounds inputs (init_st T0))) = (if c_hook c then set_cont 0 T0 else T0).
-Proof. exact restored_except_sigcont_lemma. Qed.
-Print Assumptions restored_except_sigcont.
-
-(* The clause at full strength (any original signal handlers) is FALSE of the faithful model:
-   Screen.signal_restore() sets SIGCONT to `self._prev_sigcont_handler or SIG_DFL` and that field is
-   only assigned inside the SIGTSTP handler.  The witness below (an application handler, id 2, on
-   SIGCONT) is replayed on the implementation by the harness (corpus/C12/sigcont.json): it is a
-   finding (known_findings.proposed/C12.json). *)
-Definition always_restored_full : Prop :=
-  forall c p rounds inputs T0, wf_config c -> initial_modes T0 ->
-    tm (snd (session c p rounds inputs (init_st T0))) = T0.
-
-Definition sigcont_witness_config : config :=
-  Config true None None false false false false false false [] true true [] [] false.
-
-Theorem always_restored_full_refuted :
-  exists c p rounds inputs T0, wf_config c /\ initial_modes T0 /\
-    tm (snd (session c p rounds inputs (init_st T0))) <> T0.
-Proof.
-  exists sigcont_witness_config, [], [], [], (normal_term 0 0 0 2).
-  split; [intros H; discriminate H|]. split; [repeat split|].
-  vm_compute. intros H. discriminate H.
-Qed.
-Print Assumptions always_restored_full_refuted.
+Print Assumptions always_restored_full.
 
 (* --- non-vacuity: the model computes something, the hypotheses are satisfiable --- *)
 Definition ex_config : config :=
@@ -162,6 +136,13 @@ Example ex_fault_free :
      TFilter [KResize]; TRender; TRender; TDraw; TPipe 1 65; TRender; TRender; TDraw] /\
   tm (snd rs) = normal_term 42 2 1 0 /\ length (tr (snd rs)) = 69%nat.
 Proof. vm_compute. repeat split; reflexivity. Qed.
+
+(* the former refutation witness: an application handler (id 2) on SIGCONT survives run() *)
+Definition sigcont_witness_config : config :=
+  Config true None None false false false false false false [] true true [] [] false.
+Example ex_sigcont_kept :
+  tm (snd (session sigcont_witness_config [] [] [] (init_st (normal_term 0 0 0 2)))) = normal_term 0 0 0 2.
+Proof. vm_compute. reflexivity. Qed.
 
 (* a custom exception in the widget's keypress (callback #9) leaves run(), the terminal is restored *)
 Example ex_raise :
